@@ -177,6 +177,7 @@ pub fn c17_check_variants(base: &str, vars: &[String]) -> Vec<Fail> {
         joined.push('-');
         joined.push_str(v);
     }
+    crate::stream::hostile_neighbour(joined.as_bytes());
     match joined.parse::<LanguageIdentifier>() {
         Ok(p) => {
             if p != built || p.to_string() != built.to_string() {
@@ -553,6 +554,7 @@ pub fn c19_check_value(li: &LanguageIdentifier) -> Vec<Fail> {
             if js != json_quote(&canon) {
                 out.push(fail("serialized-form", format!("{} serialises to {} instead of {}", canon, js, json_quote(&canon))));
             }
+            crate::stream::hostile_neighbour(js.as_bytes());
             match guard(|| serde_json::from_str::<LanguageIdentifier>(&js)) {
                 Ok(Ok(b)) if b == *li => {}
                 x => out.push(fail("serde-roundtrip", format!("{} -> {} -> {:?}", canon, js, x.map(|r| r.map(|v| v.to_string()).map_err(|e| e.to_string()))))),
